@@ -217,6 +217,7 @@ type veDbusReq struct {
 	Count    int    `json:"count"`
 	Parallel int    `json:"parallel"`
 	Bg       bool   `json:"bg"`     // keep running across the end of this connection (covers the reconnect window)
+	Sync     bool   `json:"sync"`   // serve the request inline, between two frames (exact frame count)
 	GapUs    int    `json:"gap_us"` // pause between two calls of one goroutine
 }
 type veConn struct {
@@ -381,6 +382,8 @@ func TestVerifE2E(t *testing.T) {
 	var doneVal int64 // value of the latest frame that has certainly been processed on the current connection
 	var bgWg sync.WaitGroup
 	defer bgWg.Wait()
+	var connOfMu sync.Mutex
+	connOf := map[interface{}]int{} // which connection a MotionProcessor object belongs to
 	for ci, cn := range sc.Conns {
 		ci, cn := ci, cn
 		atomic.StoreInt64(&doneVal, 0)
@@ -440,7 +443,11 @@ func TestVerifE2E(t *testing.T) {
 					w = &bgWg
 				}
 				w.Add(1)
-				go func() {
+				run := func(f func()) { go f() }
+				if rq.Sync {
+					run = func(f func()) { f() }
+				}
+				run(func() {
 					defer w.Done()
 					cnt := rq.Count
 					if cnt < 1 {
@@ -510,11 +517,18 @@ func TestVerifE2E(t *testing.T) {
 						mu.Lock()
 						ev["same"] = processor == p0
 						mu.Unlock()
+						connOfMu.Lock()
+						if c, ok := connOf[p0]; ok {
+							ev["pconn"] = c
+						} else {
+							ev["pconn"] = -1
+						}
+						connOfMu.Unlock()
 						replyMu.Lock()
 						enc.Encode(ev)
 						replyMu.Unlock()
 					}
-				}()
+				})
 			}
 		}
 		for pos < len(stream) {
@@ -550,6 +564,14 @@ func TestVerifE2E(t *testing.T) {
 					time.Sleep(time.Duration(cn.PaceMs) * time.Millisecond)
 					if paced-1 < len(cn.PaceVals) && cn.PaceVals[paced-1] > 0 {
 						atomic.StoreInt64(&doneVal, int64(cn.PaceVals[paced-1]))
+						mu.Lock()
+						p := processor
+						mu.Unlock()
+						connOfMu.Lock()
+						if _, ok := connOf[p]; !ok && p != nil {
+							connOf[p] = ci
+						}
+						connOfMu.Unlock()
 					}
 				}
 			} else if cn.PaceBytes > 0 && pos > len(hdr) {
